@@ -64,6 +64,38 @@ def add_delegators(ctx, out, expected):
     return out
 
 
+def is_closure(b):
+    return str(b.j.get('def_kind', '')) == 'Closure'
+
+
+def spliced_bodies(ctx):
+    """keys of every body that is spliced into some path of some non-closure body (cached)"""
+    c = ctx.facts.__dict__.setdefault('_spliced', None)
+    if c is not None:
+        return c
+    out = set()
+    for key, b in ctx.facts.bodies.items():
+        if is_closure(b):
+            continue
+        try:
+            ps = ctx.paths(b) or []
+        except Exception:
+            ps = []
+        for p in ps:
+            for e in p.events:
+                if e.kind == 'inline' and e.extra and e.extra.get('body'):
+                    out.add(e.extra['body'])
+    ctx.facts.__dict__['_spliced'] = out
+    return out
+
+
+def opaque_closures(ctx, trig):
+    """closures that touch the channel (call one of `trig`, deep) but are never spliced into any analysed path - handed to
+    code the analysis does not follow: whatever they do is invisible to the path rules, so they are reported"""
+    sp = spliced_bodies(ctx)
+    return [b for key, b in ctx.facts.bodies.items() if is_closure(b) and key not in sp and calls_any_deep(ctx, b, trig)]
+
+
 def send_bodies(ctx):
     """bodies outside the helper modules that touch the send side of the channel state"""
     trig = {CI + 'next_recv', CI + 'push_send', TERM + 'send'}
@@ -71,6 +103,8 @@ def send_bodies(ctx):
     for key, b in ctx.facts.bodies.items():
         if is_helper_body(key) or mir.private_helper(b):
             continue
+        if is_closure(b) and key in spliced_bodies(ctx):
+            continue  # analysed inside the paths of the body that calls it
         if calls_any_deep(ctx, b, trig):
             out.append(b)
     return add_delegators(ctx, out, expected_send(ctx))
@@ -101,6 +135,8 @@ def recv_bodies(ctx):
     for key, b in ctx.facts.bodies.items():
         if is_helper_body(key) or mir.private_helper(b):
             continue
+        if is_closure(b) and key in spliced_bodies(ctx):
+            continue  # analysed inside the paths of the body that calls it
         if calls_any_deep(ctx, b, trig):
             out.append(b)
     return add_delegators(ctx, out, expected_recv(ctx))
